@@ -5,7 +5,7 @@ patch (must be silent), every seeded change of PROP (must detect).  Scratch tree
 import glob, json, os, shutil, subprocess, sys, hashlib
 from concurrent.futures import ThreadPoolExecutor
 V = os.path.dirname(os.path.dirname(os.path.abspath(__file__)))
-RG = os.path.join(V, ".work", "rg")
+RG = os.environ.get("VERIF_RG", "/tmp/verif-rg")
 
 
 def tree_for(patch):
@@ -49,14 +49,14 @@ def main():
         jobs.append((x, "detect"))
     for x in sorted(glob.glob(os.path.join(V, "mutants", p, "benign", "*.patch"))):
         jobs.append((x, "silent"))
-    for d in sorted(glob.glob("/tmp/seedout/%s_*/" % prop)) + sorted(glob.glob(os.path.join(V, "seeded", "%s_*/" % prop))):
+    for d in sorted(glob.glob(os.path.join(V, "seeded", "%s_*/" % prop))):
         if os.path.exists(d + "patch.diff"):
             jobs.append((d + "patch.diff", "detect"))
     if "--all-benign" in sys.argv:
-        for d in sorted(glob.glob("/tmp/benignout/*/")):
+        for d in sorted(glob.glob(os.path.join(V, "benign", "*/"))):
             jobs.append((d + "patch.diff", "silent"))
     else:
-        for d in sorted(glob.glob("/tmp/benignout/%s_*/" % prop)):
+        for d in sorted(glob.glob(os.path.join(V, "benign", "%s_*/" % prop))):
             jobs.append((d + "patch.diff", "silent"))
     seen, uniq = set(), []
     for j in jobs:
